@@ -40,6 +40,7 @@ struct RunOutput
     uint64_t shape_hash = 0;   // coverage measure (history shape / interleaving / fault position class)
     std::vector<uint64_t> shapes;  // modes that cover many distinct cases per run (C14: one per fault position)
     long evaluations = 1;      // executions performed by this run
+    std::vector<int> executed_schedule;  // C20: the scheduling decisions that were taken (explicit schedule of the replay)
     bool nontrivial = false;
     RunStats stats;
     std::string engine_error;  // non-empty: machinery problem (exit 2), never a violation
